@@ -1550,7 +1550,53 @@ end XotModel.Props
 
 /-! # ================================================================================================
     # STALE IDS (branch wt-stale): calls with removed / stale / foreign ids at the arena level
-    # =========================================================================================
+    # ================================================================================================
+
+  `Arena.classify a x` (Lemmas/ArenaStale.lean) sorts every id into exactly one class with respect to
+  the arena: `live` (the current id of a slot that holds a node), `freed` (removed: the slot is on the
+  free list and has handed out the id's stamp before), `stale` (removed: the slot holds a node again,
+  under a later stamp), `foreign` (never issued: out of range, index 0, negative stamp, or a stamp the
+  slot has not reached).  `Arena.Removed` = `freed` or `stale`.  Decidable (a computable function).
+
+  What indextree 4.7.2 DOES with such ids — proved from the definitions of the pointer-level model,
+  for all arenas (the correspondence suite `arena` compares the same calls with the crate):
+
+    reads         `NodeId::is_removed`: `true` for every removed id, index panic beyond the slot vector;
+                  `Arena::get`: no stamp check — the freed slot itself (`Node::is_removed()` true) resp.
+                  the NEW occupant; `arena[id].get()`: `unreachable!` on a freed slot; no accessor and
+                  no iterator ever writes (`C04_arena_stale_reads`, `_read_only`);
+    `checked_*`   a FREED id in either position: `Err(Removed)`; beyond the slot vector: index panic;
+                  the same id twice: the `…Self` error — all before the first write
+                  (`C04_arena_stale_checked`).  A STALE id is NOT refused: `Removed` is decided by the
+                  sign of the SLOT's stamp, the call goes on with the new occupant
+                  (`C04_arena_stale_passes_removed_check`; closed examples in `Props/C06`);
+    `detach`      no stamp is looked at.  On a slot without parent / sibling pointers (every slot freed
+                  by `remove`, the root freed by `remove_subtree`): `Ok`, arena unchanged
+                  (`C04_arena_stale_detach_partial`).  In general pointers only are written
+                  (`C04_arena_stale_detach_meta`: stamps, payloads, free list, the class of every id are
+                  as before) — but with the stale pointers of a slot freed INSIDE a removed subtree these
+                  are the pointers of the former neighbours' slots, whoever occupies them now: the full
+                  statement is false (`C04_arena_stale_detach_Statement_false`: a live node loses its
+                  children);
+    `remove`, `remove_subtree`
+                  no stamp is looked at: `free_node` runs again (DOUBLE FREE).  On a freed slot whose
+                  five pointers are `None`: `Ok`; the stamp `c < 0` becomes `-c - 1 ≥ 0` over a `NextFree`
+                  payload, the slot is linked into the free list a second time; the arena reached is
+                  NOT well-formed and the id removed last from that slot is reported NOT removed again
+                  (`C04_arena_stale_remove_double_free`; so `C04_arena_stale_remove_Statement` is false);
+    one-argument calls with a STALE id
+                  `detach`, `remove`, `remove_subtree` use the slot index only: the NEW OCCUPANT of the slot
+                  is detached / removed / removed with its subtree, as the refinement theorems say for its
+                  current id; the arena stays well-formed (`C04_arena_stale_acts_on_new_occupant`);
+    iterators     from a removed id: no refusal; they follow whatever pointers the slot keeps; on a
+                  slot whose five pointers are `None` they yield the removed id ITSELF and no children
+                  (`C04_arena_stale_iterators`).
+
+  The headline, `C04_arena_never_hands_out_removed`: in every well-formed (hence every reachable)
+  arena, every pointer read from a live node and every id yielded by ANY iterator started at a live
+  id — for every limit — is a live id; `get_node_id_at` answers live ids only.
+-/
+
 namespace XotModel.Props
 open XotModel
 
@@ -1911,52 +1957,6 @@ example : Arena.FreedArg Arena.sampleF ⟨3, 0⟩ ⟨9, 0⟩ ∧ Arena.FreedArg 
 end XotModel.Props
 
 /-! # ================================================================================================
-
-  `Arena.classify a x` (Lemmas/ArenaStale.lean) sorts every id into exactly one class with respect to
-  the arena: `live` (the current id of a slot that holds a node), `freed` (removed: the slot is on the
-  free list and has handed out the id's stamp before), `stale` (removed: the slot holds a node again,
-  under a later stamp), `foreign` (never issued: out of range, index 0, negative stamp, or a stamp the
-  slot has not reached).  `Arena.Removed` = `freed` or `stale`.  Decidable (a computable function).
-
-  What indextree 4.7.2 DOES with such ids — proved from the definitions of the pointer-level model,
-  for all arenas (the correspondence suite `arena` compares the same calls with the crate):
-
-    reads         `NodeId::is_removed`: `true` for every removed id, index panic beyond the slot vector;
-                  `Arena::get`: no stamp check — the freed slot itself (`Node::is_removed()` true) resp.
-                  the NEW occupant; `arena[id].get()`: `unreachable!` on a freed slot; no accessor and
-                  no iterator ever writes (`C04_arena_stale_reads`, `_read_only`);
-    `checked_*`   a FREED id in either position: `Err(Removed)`; beyond the slot vector: index panic;
-                  the same id twice: the `…Self` error — all before the first write
-                  (`C04_arena_stale_checked`).  A STALE id is NOT refused: `Removed` is decided by the
-                  sign of the SLOT's stamp, the call goes on with the new occupant
-                  (`C04_arena_stale_passes_removed_check`; closed examples in `Props/C06`);
-    `detach`      no stamp is looked at.  On a slot without parent / sibling pointers (every slot freed
-                  by `remove`, the root freed by `remove_subtree`): `Ok`, arena unchanged
-                  (`C04_arena_stale_detach_partial`).  In general pointers only are written
-                  (`C04_arena_stale_detach_meta`: stamps, payloads, free list, the class of every id are
-                  as before) — but with the stale pointers of a slot freed INSIDE a removed subtree these
-                  are the pointers of the former neighbours' slots, whoever occupies them now: the full
-                  statement is false (`C04_arena_stale_detach_Statement_false`: a live node loses its
-                  children);
-    `remove`, `remove_subtree`
-                  no stamp is looked at: `free_node` runs again (DOUBLE FREE).  On a freed slot whose
-                  five pointers are `None`: `Ok`; the stamp `c < 0` becomes `-c - 1 ≥ 0` over a `NextFree`
-                  payload, the slot is linked into the free list a second time; the arena reached is
-                  NOT well-formed and the id removed last from that slot is reported NOT removed again
-                  (`C04_arena_stale_remove_double_free`; so `C04_arena_stale_remove_Statement` is false);
-    one-argument calls with a STALE id
-                  `detach`, `remove`, `remove_subtree` use the slot index only: the NEW OCCUPANT of the slot
-                  is detached / removed / removed with its subtree, as the refinement theorems say for its
-                  current id; the arena stays well-formed (`C04_arena_stale_acts_on_new_occupant`);
-    iterators     from a removed id: no refusal; they follow whatever pointers the slot keeps; on a
-                  slot whose five pointers are `None` they yield the removed id ITSELF and no children
-                  (`C04_arena_stale_iterators`).
-
-  The headline, `C04_arena_never_hands_out_removed`: in every well-formed (hence every reachable)
-  arena, every pointer read from a live node and every id yielded by ANY iterator started at a live
-  id — for every limit — is a live id; `get_node_id_at` answers live ids only.
--/
-=======
     # REACHABLE TREES (branch wt-reach): the invariant gives the structural hypotheses of the
     # tree-level theorems (C01, C07, C09, C10, C13, C15)
     # ================================================================================================
